@@ -1,6 +1,6 @@
 //! The real client (crate `rdp`) driven against the reference server.
 
-use ntlmref::refsrv::{cssp, der, ntlm};
+use simcore::refsrv::{cssp, der, ntlm};
 use rdp::nla::ntlm::Ntlm;
 use rdp::nla::sspi::{AuthenticationProtocol, GenericSecurityService};
 use std::panic::{catch_unwind, AssertUnwindSafe};
